@@ -148,6 +148,37 @@ def view_rules(rep, mod, results, tagD):
                     else:
                         ks.append("value")
                 kinds.add(tuple(k for k in ks if k != "value"))
+        # R05.count: a counted element primitive (copy_n / fill_n ...) covers exactly the destination: over flat pointers or elements() iterators the count
+        # is num_elements() of the destination (or of the source, whose extents are asserted equal), over array iterators it is the leading size()
+        key = "R05.count@%s" % n
+        badc = []
+        ncount = 0
+        for r in traces:
+            sim = r.get("sim")
+            if sim is None:
+                continue
+            for e in events_of(r, ("assign",)):
+                if not re.search(r"_n_t\b|_n\b", str(e[1])) or len(e) < 4:
+                    continue
+                if len(e[3]) < 3:
+                    continue
+                # (function object, first, count, destination | value): frozen from the signatures of adl_copy_n / adl_fill_n in detail/adl.hpp
+                cterm = e[3][2]
+                t, rp = sim.norm_count(cterm), repr(typestate.strip(cterm))
+                over_iter = "array_iterator::array_iterator" in repr(typestate.strip(e[3][1]))
+                ncount += 1
+                if over_iter:
+                    good = bool(re.search(r"layout_t::size\(\) const", rp)) and "nelems" not in rp and "num_elements" not in rp
+                    expect = "the leading size() of an operand"
+                else:
+                    good = t[0] == "numel" and t[1] in (("L0", "p0"), ("L0", "p1"))
+                    expect = "num_elements() of an operand"
+                if not good:
+                    badc.append("%s is called with count %s, expected %s" % (re.sub(r"^.*\) ", "", str(e[1]))[-40:], typestate.short_t(t if t[0] == "numel" else typestate.strip(cterm), 90), expect))
+        if badc:
+            rep.violated(key, "R05.count", "%s (%s): %s" % (op["body"], tagD, sorted(set(badc))[0]), dict(operation=op["body"], problems=sorted(set(badc))))
+        elif ncount:
+            rep.ok(key + "#" + tagD, "R05.count", None)
         mixed = [k for k in kinds if len(set(k)) > 1]
         if mixed:
             rep.violated(key, "R05.kind", "%s (%s): source and destination are traversed by different range kinds %s" % (op["body"], tagD, mixed), dict(kinds=sorted(kinds)))
@@ -210,6 +241,36 @@ def value_rules(rep, mod, results, tagD):
             rep.violated(key, "R04.prov", "%s (%s): %s" % (op["body"], tagD, "; ".join(sorted(set(bad)))), dict(operation=op["body"], problems=sorted(set(bad))))
         else:
             rep.ok(key + "#" + tagD, "R04.prov", None)
+    # R04.extents: after a copy / copy-assignment the destination has the source's extents: its final layout is the source's layout, or is built from
+    # the source's extensions(), or is the unchanged old layout on a path where the extents compared equal (or the self-assignment early return);
+    # an empty layout is accepted when the path says the source has no elements
+    for n in COPY_OPS:
+        if n not in results:
+            continue
+        op = mod.ops[n]
+        key = "R04.extents@%s" % n
+        bad = []
+        for r in results[n]:
+            sim = r.get("sim")
+            if r["outcome"] != "ret" or sim is None or "p1" not in sim.objs:
+                continue
+            lay = sim.objs["p0"].layout
+            sl = repr(typestate.strip(lay))
+            from_src = lay == ("L0", "p1") or ("extensions() const" in sl and "('param', 1)" in sl) or ("L0" in sl and "'p1'" in sl)
+            eq_ext = any(v and re.search(r"operator==\(extensions_t const&(, extensions_t const&)?\)", repr(c)) for c, v in r["pc"].items())
+            self_asg = any(v and "'cmp', 'eq'" in repr(c) and "('param', 0)" in repr(c) and "('param', 1)" in repr(c) and "num_elements" not in repr(c) for c, v in r["pc"].items())
+            src_empty = any(v and ("num_elements" in repr(c) or "is_empty" in repr(c)) for c, v in r["pc"].items())
+            if from_src or eq_ext or self_asg:
+                continue
+            if (lay == ("empty",) or typestate.is_empty_layout(lay)) and src_empty:
+                continue
+            conds = sorted(typestate.short_t(c, 60) + ("" if v else " [false]") for c, v in r["pc"].items())
+            bad.append("final layout %s on the path (%s)" % (typestate.short_t(lay, 80), "; ".join(conds)[:240]))
+        if bad:
+            rep.violated(key, "R04.extents", "%s (%s): the destination does not end with the source's extents: %s" % (op["body"], tagD, sorted(set(bad))[0]),
+                         dict(operation=op["body"], problems=sorted(set(bad))[:4]))
+        else:
+            rep.ok(key + "#" + tagD, "R04.extents", None)
     # self assignment: a path guarded by this == &other without any effect
     for n in ("assign_copy", "assign_move", "sassign_copy"):
         if n not in results:
@@ -254,6 +315,17 @@ def reextent_rules(rep, mod, results, tagD):
         bad = []
         seen_resize = False
         seen_copy = False
+        # every path on which the extents differ builds new storage: elements keep their index tuples, which no in-place relabelling of the old
+        # block can give (a path that only rewrites the layout keeps flat positions instead)
+        for r in results[n]:
+            if r["outcome"] != "ret":
+                continue
+            eq = [v for c, v in r["pc"].items() if re.search(r"operator==\(extensions_t const&(, extensions_t const&)?\)", repr(c))]
+            if eq and eq[0]:
+                continue
+            if not has_kind(r, ("construct",)):
+                conds = sorted(typestate.short_t(c, 70) + ("" if v else " [false]") for c, v in r["pc"].items())
+                bad.append("a path on which the extents differ returns without initialising new storage (conditions: %s)" % "; ".join(conds)[:300])
         for r in results[n]:
             if r["outcome"] != "ret" or not has_kind(r, ("alloc",)):
                 continue
